@@ -21,7 +21,12 @@ package posix
 
 // ---- C04: the copy source that is opened is the one that was parsed (and found free of dot segments) ----
 // Either the bucket and key ParseCopySource returned, or, for an older version, the version path built from them.
+// C01: a copy is acknowledged only after the source's data were stored under the destination (PutObject of the opened
+// source) — or when the file the source names, version and all, is the destination file itself (attributes only)
+//@ func joinPathWithTrailer
+//@   pure
 //@ func (*Posix) CopyObject
+//@   at-return {C01} [acknowledged-only-after-the-data-were-copied] when err == nil :: ensures called("posix.Posix.PutObject") || joinPathWithTrailer(dstBucket, dstObject) == objPath
 //@   at-call os.Open {C04} [the-source-opened-is-the-source-that-was-parsed] requires called("backend.ParseCopySource") && $0 == objPath \
 //@        && (srcObject == result("backend.ParseCopySource", 1) \
 //@            || (called("posix.genObjVersionKey") && arg("posix.genObjVersionKey", 0) == result("backend.ParseCopySource", 1) && srcVersionId == result("backend.ParseCopySource", 2))) \
